@@ -32,7 +32,7 @@ func labelLines(out []byte) map[string]string {
 }
 
 func checkC11(c *Ctx) {
-	c.SetRule("programs of 8 functions marked //garble:controlflow, drawn from 22 body kinds (loops/branches, switch+fallthrough+labels+goto, range over slice/array/int/string/map/channel, select, defer order and argument evaluation, recover with and without named results, panics of 5 kinds, " +
+	c.SetRule("programs of 8 functions marked //garble:controlflow, drawn from 37 body kinds (range over int and over iterator functions, slice append/copy/3-index/array conversions, eleven run-time panics, shifts/overflow/NaN/complex arithmetic, goto loops, method expressions, tuple assignment order, goroutines with WaitGroup/Mutex/channels, recursion through closures, string/rune conversions, defers in loops, select with default/nil/closed channels, pointer aliasing, embedded structs with promoted and shadowed members, loops/branches, switch+fallthrough+labels+goto, range over slice/array/int/string/map/channel, select, defer order and argument evaluation, recover with and without named results, panics of 5 kinds, " +
 		"closures with captured variables, variadic/multiple results, value and pointer receivers, evaluation order, phi-heavy loops, integer/float arithmetic, type switches, struct/array/slice aliasing, generics, string/byte operations, map loops), each with its own random directive parameters " +
 		"(block_splits {0,1,3,8,max} x junk_jumps {0,1,4,16,64} x flatten_passes {1,2,3} x flatten_hardening {none,xor,delegate_table,both} x trash_blocks {0,1,4,32}) and called on 2-6 argument vectors; every function logs its side effects in order. " +
 		"Oracle: per call, the line (results | effect trace | panic value) equals the regular build's line. Build errors are allowed by the property and counted separately. The PRNG stream varies per program (action-ID seeded) and per -seed. " +
@@ -50,10 +50,17 @@ func checkC11(c *Ctx) {
 	// Kinds that are listed known findings are kept out of the bulk programs (so that bulk
 	// failures stay meaningful) and exercised in dedicated witness programs below.
 	var witnessKinds []string
-	for _, k := range cfKinds() {
+	for _, k := range append(cfKinds(), cfKinds2()...) {
 		if c.HasFinding("cf/" + k.feature) {
 			exclude[k.feature] = true
 			witnessKinds = append(witnessKinds, k.name)
+		}
+	}
+	var soloKinds []string
+	for _, k := range cfKinds2() {
+		if cfSoloKinds[k.name] && !exclude[k.feature] {
+			exclude[k.feature] = true
+			soloKinds = append(soloKinds, k.name)
 		}
 	}
 	var mu sync.Mutex
@@ -165,6 +172,10 @@ func checkC11(c *Ctx) {
 	for wi, kind := range witnessKinds {
 		cp := genCFProg(subRand(c.Seed, "c11w", wi), 1, nil, []string{kind}, false, &cfParams{})
 		runOne(cp, K8u, fmt.Sprintf("c11w%d", wi))
+	}
+	for si, kind := range soloKinds {
+		cp := genCFProg(subRand(c.Seed, "c11solo", si), 1, nil, []string{kind}, false, &cfParams{})
+		runOne(cp, K8u, fmt.Sprintf("c11s%d", si))
 	}
 	c.Extra("build_rejections_by_message", rejected)
 	c.Extra("distinct_parameter_rows_applied", len(rowsSeen))
